@@ -371,3 +371,88 @@ func EdgeFact(pred, succ *ssa.BasicBlock) (Fact, bool) {
 	}
 	return Fact{}, false
 }
+
+// FirstOnAllPaths reports whether, on every CFG path starting just after `from`, an instruction satisfying a
+// is executed before any instruction satisfying b.  Paths that reach neither are acceptable when
+// needA is false (they simply never do b); with needA they are not.
+func FirstOnAllPaths(from ssa.Instruction, a, b func(ssa.Instruction) bool, needA bool) (bool, ssa.Instruction) {
+	blk := from.Block()
+	idx := 0
+	for i, in := range blk.Instrs {
+		if in == from {
+			idx = i + 1
+		}
+	}
+	seen := map[*ssa.BasicBlock]bool{}
+	var bad ssa.Instruction
+	var walk func(x *ssa.BasicBlock, start int) bool
+	walk = func(x *ssa.BasicBlock, start int) bool {
+		if start == 0 {
+			if seen[x] {
+				return true
+			}
+			seen[x] = true
+		}
+		for _, in := range x.Instrs[start:] {
+			if a(in) {
+				return true
+			}
+			if b(in) {
+				bad = in
+				return false
+			}
+		}
+		if len(x.Succs) == 0 {
+			if needA {
+				bad = x.Instrs[len(x.Instrs)-1]
+				return false
+			}
+			return true
+		}
+		for _, s := range x.Succs {
+			if !walk(s, 0) {
+				return false
+			}
+		}
+		return true
+	}
+	ok := walk(blk, idx)
+	return ok, bad
+}
+
+// ReachableWithout reports whether some CFG path leads from just after `from` to instruction `to` without
+// executing an instruction satisfying avoid.
+func ReachableWithout(from, to ssa.Instruction, avoid func(ssa.Instruction) bool) bool {
+	blk := from.Block()
+	idx := 0
+	for i, in := range blk.Instrs {
+		if in == from {
+			idx = i + 1
+		}
+	}
+	seen := map[*ssa.BasicBlock]bool{}
+	var walk func(x *ssa.BasicBlock, start int) bool
+	walk = func(x *ssa.BasicBlock, start int) bool {
+		if start == 0 {
+			if seen[x] {
+				return false
+			}
+			seen[x] = true
+		}
+		for _, in := range x.Instrs[start:] {
+			if in == to {
+				return true
+			}
+			if avoid != nil && avoid(in) {
+				return false
+			}
+		}
+		for _, s := range x.Succs {
+			if walk(s, 0) {
+				return true
+			}
+		}
+		return false
+	}
+	return walk(blk, idx)
+}
